@@ -44,7 +44,7 @@
    operation, over R).  Hypotheses, all taken from ReaderP / RoundTripP:
      - [exportable dec8 ir] (ReaderP.stmt_ok1: names are identifiers, indices
        natural numbers, reals well-formed finite decimals, no bit argument in a
-       gate, at least one qubit operand, comments without terminator/newline);
+       gate, at least one qubit operand, comments without the terminator "*/" (newlines allowed));
      - [Forall (rt_coherent N) ir] (RoundTripP): every statement is what the
        default instruction set builds from its name and captured arguments.
    [of_lit : string -> T] (the conversion of the text of a real parameter, in
